@@ -2,10 +2,13 @@
 C05 — timers: never early, deadline order, exactly once per arming, cancel is final.
 
 Theorems about the timer wheel model (`Verif.Wheel`, mirror of `TimerWheel`): what one poll pops is
-sorted, due, and complete; cancel removes the arming and nothing else; counters are fresh.  The
-per-arming clauses over whole histories are decided by Spec.Core's C05 clauses on the real loop.
+sorted, due, and complete; cancel removes the arming and nothing else; counters are fresh.  Over the
+whole loop model (`Verif.Inv.WheelInv`): after every history the counters in the wheel are distinct and
+every entry is the current arming of a timer — no residue.  The remaining per-arming clauses over whole
+histories are decided by Spec.Core's C05 clauses on the real loop.
 -/
 import Verif.Inv.Wheel
+import Verif.Inv.WheelInv
 
 namespace Verif.Props.C05
 open Verif.Wheel
@@ -44,5 +47,62 @@ theorem counters_fresh (w : Wheel) (d : Int) (t : Verif.Token.Tok) :
 /-- non-vacuity: a concrete wheel with an early and a late deadline -/
 example : (popExpired { heap := [⟨5, default, 0⟩, ⟨1, default, 1⟩, ⟨9, default, 2⟩], counter := 3 } 6 3).1.map (·.deadline)
     = [1, 5] := by decide
+
+/-! ### the whole loop -/
+
+open Verif.Loop in
+/-- **After every history** of operations, callback programs (re-arming with `ToInstant`, cancelling, removing,
+    re-inserting …), failures and dispatches — not aborted by a panic, and in which `enable` was never applied to a
+    timer that still held a registration (`reEnabled`, outside `enable`'s contract: see `enable_twice_leaves_residue`) —
+    the counters of the armings in the wheel are pairwise distinct … -/
+theorem wheel_counters_distinct (ops : List Op) (hab : (run ops).aborted = false) (hre : (run ops).reEnabled = false) :
+    (run ops).wheel.heap.Pairwise (fun a b => a.counter ≠ b.counter) :=
+  Verif.Inv.WheelInv.wheel_counters_distinct ops hab hre
+
+open Verif.Loop in
+/-- … so in every reachable state a cancellation is final (the hypothesis of `cancel_final` holds) … -/
+theorem cancel_final_in_every_reachable_state (ops : List Op) (hab : (run ops).aborted = false)
+    (hre : (run ops).reEnabled = false) (c : Nat) : ∀ x ∈ (cancel (run ops).wheel c).heap, x.counter ≠ c :=
+  cancel_final _ c (wheel_counters_distinct ops hab hre)
+
+open Verif.Loop in
+/-- … every entry in the wheel is the current arming of some timer object: armings that were cancelled (remove,
+    disable, re-registration), fired or replaced leave nothing behind … -/
+theorem wheel_has_no_residue (ops : List Op) (hab : (run ops).aborted = false) (hre : (run ops).reEnabled = false) :
+    ∀ e ∈ (run ops).wheel.heap, ∃ k src, alookup (run ops).srcs k = some src ∧ src.treg = some (e.tok, e.counter) :=
+  Verif.Inv.WheelInv.wheel_has_no_residue ops hab hre
+
+open Verif.Loop in
+/-- … and no timer object has two entries: the wheel never grows beyond one entry per registered timer. -/
+theorem one_entry_per_timer (ops : List Op) (hab : (run ops).aborted = false) (hre : (run ops).reEnabled = false)
+    (i j : Nat) (a b : Entry) (k : Nat) (src : Src)
+    (ha : (run ops).wheel.heap[i]? = some a) (hb : (run ops).wheel.heap[j]? = some b)
+    (hk : alookup (run ops).srcs k = some src)
+    (hra : src.treg = some (a.tok, a.counter)) (hrb : src.treg = some (b.tok, b.counter)) : i = j :=
+  Verif.Inv.WheelInv.one_entry_per_timer ops hab hre i j a b k src ha hb hk hra hrb
+
+open Verif.Loop in
+/-- non-vacuity: two timers; the first re-arms itself from its callback (`ToInstant`), is disabled, re-enabled,
+    re-deadlined with `update`; the second is removed before it fires.  The hypotheses hold, one entry is left. -/
+def rearmCancelHistory : List Op :=
+  [.c (.newTimer 1 (some 5)), .c (.insertd 1), .c (.newTimer 2 (some 50)), .c (.insert 2),
+   .script 1 1 { ret := .toInstant 20 },
+   .c (.advance 6), .dispatch,
+   .c (.disable 1), .c (.enable 1), .c (.setDeadline 1 30), .c (.update 1),
+   .c (.remove 2), .c (.advance 10), .dispatch]
+
+open Verif.Loop in
+example : (run rearmCancelHistory).aborted = false ∧ (run rearmCancelHistory).reEnabled = false ∧
+    (run rearmCancelHistory).wheel.heap.length = 1 ∧
+    (run rearmCancelHistory).log.contains (.cb 1 (.deadline 5)) = true := by decide +kernel
+
+open Verif.Loop in
+/-- why the hypothesis is there: `enable` of a timer that is not disabled registers it a second time (model and
+    implementation agree, see DESIGN.md) — the first arming stays in the wheel. -/
+def enableTwice : List Op := [.c (.newTimer 1 (some 5)), .c (.insertd 1), .c (.enable 1)]
+
+open Verif.Loop in
+theorem enable_twice_leaves_residue : (run enableTwice).reEnabled = true ∧ (run enableTwice).wheel.heap.length = 2 := by
+  decide +kernel
 
 end Verif.Props.C05
